@@ -115,6 +115,26 @@ def matchOrder (cfg : MCfg) (ic : InsCfg) (o : Ord) (b : MBar) (openAuction : Bo
                   (frozenCashOfOrder ic price o.qty true 0 + fee f price > cashPlusInit) then .rejected
               else .fill f price (closeToday f) (!o.isLimit && o.unfilled - f ≠ 0)
 
+/-- signal mode: the deal price is the order's own limit price (limit order) or the last price -/
+def signalDeal (o : Ord) (last : R) : R := if o.isLimit then o.frozenPrice else last
+
+/-- the deal price is at the adverse limit (a missing / NaN limit never is) -/
+def signalAtLimit (o : Ord) (b : MBar) (deal : R) : Bool :=
+  (o.isBuy && (match b.limitUp with | some u => decide (deal ≥ u) | none => false)) ||
+  (!o.isBuy && (match b.limitDown with | some d => decide (deal ≤ d) | none => false))
+
+/-- `SignalBroker._match` (signal mode: no book, no volume cap, no cash check): the order is decided at once — rejected when the
+last price is invalid or, with `price_limit`, when the deal price is at the adverse limit; otherwise the WHOLE quantity is filled at
+the deal price moved by the slippage model.  `b.deal` = last price. -/
+def signalMatch (priceLimit : Bool) (slip : Slip) (o : Ord) (b : MBar) (closeToday : Int → Int) : MOutcome :=
+  match validPrice b.deal with
+  | none => .rejected
+  | some last =>
+    if priceLimit && signalAtLimit o b (signalDeal o last) then .rejected
+    else match slipPrice slip o.isBuy o.isLimit o.limitPrice b (signalDeal o last) with
+      | none => .raises
+      | some price => .fill o.qty price (closeToday o.qty) false
+
 /-- per-instrument accumulator of the bar: `_turnover[id] += fill`; `update` clears it -/
 def turnoverAfter (turnover : Int) : MOutcome → Int
   | .fill q _ _ _ => turnover + q
